@@ -7,6 +7,7 @@ use mc_adapt::maps::*;
 use mc_adapt::roll::*;
 use mc_checks::*;
 use mc_ref::order::QMethod;
+use std::collections::VecDeque;
 
 mod imp {
     use mc_adapt::backends::SliceRead;
@@ -646,6 +647,25 @@ macro_rules! visit_body {
                 }
             }
         }
+        // (seed round 12) a second series longer than the first is legal (the drivers require other.len() >= self.len()):
+        // one result per element of the *first* series, from every input back end, returned and written into a buffer
+        if len <= 4 {
+            let mut second_long = second.clone();
+            second_long.extend([7.0, 9.0]);
+            let plain: Vec<$T> = enc_vec($self.x);
+            for ((fi, w, mp), _) in &$self.reference.roll2 {
+                let f = V2_ALL[*fi];
+                let refo = catch(|| call_v2::<Vec<$T>, $T, Vec<f64>, f64, VecDeque<f64>, f64>(f, &plain, &second_long, *w, *mp, Path::Buf).cells());
+                for (oname, got) in roll2_all_outputs::<V, $T>(f, $v, &second_long, *w, *mp) {
+                    $self.ctx.eval(fam, outcome_hash(&got));
+                    $self.ctx.transitions += 1;
+                    let len_ok = match &got { Outcome::Ok(c) => c.len() == len, _ => true };
+                    if !same_outcome(&refo, &got) || !len_ok {
+                        $self.report(format!("{} (second series two longer)", r2_name(f)), $name, oname, json!({"w": w, "mp": mp_json(*mp)}), &refo, &got);
+                    }
+                }
+            }
+        }
         // mirrored: this container as the *second* series of the two-series functions, the first in a Vec
         {
             let first: Vec<f64> = second.clone();
@@ -943,7 +963,7 @@ fn main() {
     total.sample(json!({"cell": {"function": "ts_vstd", "input": "VecDeque(head=6,wrapped)", "output": "Array1/Buf", "series": [0, null, 3, 1], "w": 2}, "oracle": "identical to Vec -> Vec/Ret"}));
     total.sample(json!({"cell": {"function": "vquantile(0.25, Linear)", "input": "Float64Chunked[1, 2, 1]", "series": [1, 0, null, 3]}, "oracle": "identical to Vec"}));
     let meta = Meta {
-        rule: "finite matrix: every word over {null,0,1,3} up to length L, realised as every input back-end configuration (Vec, Arc<Vec>, [T;N], VecDeque x 8 head offsets incl. wrapped, Array1, ArrayView1 steps 1,2,3,-1,-2, ArrayViewMut1, Arc<Array1>, OptIter<Vec>, OptIter<Array1>, Float64Chunked / &Float64Chunked under every chunking into <= 3 chunks with validity bitmaps) for element types f64 (NaN) and Option<f64>, x every output container (Vec, VecDeque, Array1, Float64Chunked; returned and caller buffer) x every function: 23 single-series and 7 two-series rolling functions with a representative (w, min_periods) set, the mapping set, the aggregations incl. quantiles, Spearman, half_life, winsorize; oracle = the same call on Vec returning Vec, exact comparison (None ~ NaN). Accessor sub-check per container: len, get(0..=len), uget, titer forwards / backwards / alternating, slice(a,b) for all a<=b<=len, try_as_slice. Non-trivial = distinct words (each expanded into the whole matrix). Configuration families (DESIGN 5.15): caller buffers in non-canonical layouts (wrapped rings, strided / reversed views) for every built-in statistic; the user-function drivers (rolling_custom, rolling_apply, rolling2_custom, rolling_apply_idx) and a lazy mapping result returned, written into a canonical buffer and into every layout, for every input back end. Round 8 (DESIGN 5.17): every container also as the *second* series of the two-series functions (first series in a Vec). Round 10 (DESIGN 5.19): owned ndarray arrays in a non-standard layout (slice_move with steps 2, 3, -1, -2; invert_axis; also behind Arc and .opt()) among the input back ends of every family that visits the back ends. Round 11 (DESIGN 5.20): fallible-outputs - a fallible item stream (vcut with values outside the bins) through try_collect_vec1 / try_collect_trusted_vec1 into Vec, VecDeque, Array1: the same Ok / Err from every output container.".into(),
+        rule: "finite matrix: every word over {null,0,1,3} up to length L, realised as every input back-end configuration (Vec, Arc<Vec>, [T;N], VecDeque x 8 head offsets incl. wrapped, Array1, ArrayView1 steps 1,2,3,-1,-2, ArrayViewMut1, Arc<Array1>, OptIter<Vec>, OptIter<Array1>, Float64Chunked / &Float64Chunked under every chunking into <= 3 chunks with validity bitmaps) for element types f64 (NaN) and Option<f64>, x every output container (Vec, VecDeque, Array1, Float64Chunked; returned and caller buffer) x every function: 23 single-series and 7 two-series rolling functions with a representative (w, min_periods) set, the mapping set, the aggregations incl. quantiles, Spearman, half_life, winsorize; oracle = the same call on Vec returning Vec, exact comparison (None ~ NaN). Accessor sub-check per container: len, get(0..=len), uget, titer forwards / backwards / alternating, slice(a,b) for all a<=b<=len, try_as_slice. Non-trivial = distinct words (each expanded into the whole matrix). Configuration families (DESIGN 5.15): caller buffers in non-canonical layouts (wrapped rings, strided / reversed views) for every built-in statistic; the user-function drivers (rolling_custom, rolling_apply, rolling2_custom, rolling_apply_idx) and a lazy mapping result returned, written into a canonical buffer and into every layout, for every input back end. Round 8 (DESIGN 5.17): every container also as the *second* series of the two-series functions (first series in a Vec). Round 10 (DESIGN 5.19): owned ndarray arrays in a non-standard layout (slice_move with steps 2, 3, -1, -2; invert_axis; also behind Arc and .opt()) among the input back ends of every family that visits the back ends. Round 11 (DESIGN 5.20): fallible-outputs - a fallible item stream (vcut with values outside the bins) through try_collect_vec1 / try_collect_trusted_vec1 into Vec, VecDeque, Array1: the same Ok / Err from every output container. Round 12 (DESIGN 5.21): the two-series functions with a second series two elements longer than the first (words up to length 4): one result per element of the first series, identical from every input back end, returned and written into a buffer.".into(),
         bounds: json!({"alphabet": json_word(&fam.alpha), "L": fam.max_len, "w": "1,2,3,len+1", "min_periods": "omitted, 1, w"}),
         assumptions: vec!["calls that panic on the reference and on the cell alike count as equal".into(), "try_as_slice(): None always acceptable, Some must be the logical sequence (DESIGN 5.6)".into()],
         exhaustive: true,
